@@ -4,6 +4,7 @@ change in its own scratch worktree /tmp/<prefix>-<ID>.  Only the property text i
 import json, sys
 prefix, pid = sys.argv[1], sys.argv[2]
 n = sys.argv[3] if len(sys.argv) > 3 else "1"
+two = n == "2x"
 p = [json.loads(l) for l in open("/verif/properties.jsonl") if l.strip()]
 p = [x for x in p if x["id"] == pid][0]
 wt = "/tmp/%s-%s" % (prefix, pid)
@@ -22,7 +23,7 @@ Your task: make a change to the library source (embedded-cli/src/** or embedded-
   - a bug in a less-travelled part of the code that still falls under this property (the derive macros' generated code, the Writer, history navigation state, autocompletion merging, help rendering, the builder / deprecated constructor, error paths).
 It must NOT be something that ordinary short use would expose at once (typing `abc<Enter>` into a default-size CLI must still work), and it must look like something a developer could plausibly write.
 
-Deliver ONE such change under {wt}/seeded/{n}/ :
+{"Deliver TWO such changes, independent of each other (different mechanisms, different sites -- different source files if the property allows it, and at least one of them NOT in the file most obviously responsible for this property), each relative to a clean HEAD, under " + wt + "/seeded/1/ and " + wt + "/seeded/2/, each directory holding:" if two else "Deliver ONE such change under " + wt + "/seeded/" + n + "/ :"}
   - patch.diff : `git diff` of the library change only (relative to HEAD), applicable with `git apply` at the repo root;
   - demo.rs : a Rust integration test file, using only the crate's public API and self-contained (it is run by copying it to embedded-cli/tests/seed_demo.rs and running `cargo test -p embedded-cli --offline --test seed_demo`), that FAILS with the change applied and PASSES without it;
   - notes.md : which clause of the property is broken, what exactly is needed for it to manifest (the trigger), and confirmation (command output summary) that the full existing test suite passes with the change and that the demonstration fails with it and passes without it.
